@@ -176,7 +176,7 @@ Proof.
 Qed.
 End Q.
 
-(* ---------- tensor train: with first boundary rank 1, tt_to_tensor reconstructs ONLY what _validate_tt_tensor accepts ---------- *)
+(* ---------- tensor train: with first boundary rank 1, tt_to_tensor_raw reconstructs ONLY what _validate_tt_tensor accepts ---------- *)
 (* (without that hypothesis it does not: tt_first_boundary_refuted in Proofs18) *)
 Section T.
 Variable F : Type.
@@ -237,10 +237,10 @@ Proof.
 Qed.
 
 Theorem tt_ok_validated_partial (cs : list tensor) (t : tensor) ds :
-  tt_to_tensor Op cs = Ok t -> all_shape3 cs = Ok ds -> d3a (hd (0, 0, 0) ds) = 1 -> 0 < prod (map d3b ds) ->
+  tt_to_tensor_raw Op cs = Ok t -> all_shape3 cs = Ok ds -> d3a (hd (0, 0, 0) ds) = 1 -> 0 < prod (map d3b ds) ->
   validate_tt cs = Ok (map d3b ds, map d3a ds ++ [1]).
 Proof.
-  unfold tt_to_tensor, validate_tt. destruct cs as [|fa rest]; [discriminate|].
+  unfold tt_to_tensor_raw, validate_tt. destruct cs as [|fa rest]; [discriminate|].
   intros Ht Hds H1 Hpos. rewrite Hds in *. cbn [rbind] in *.
   cbn [all_shape3] in Hds.
   destruct (shape3 fa) as [x0|] eqn:E0; cbn [rbind] in Hds; [|discriminate].
